@@ -28,7 +28,7 @@ ASSUMPTIONS = ['float32 builds are compared at rtol 5e-4 on well-conditioned pro
                'feature set per backend is what the backend accepts (Fortran: scalar models; JAX: no ring buffers); refusals are C20\'s business']
 CASE_TIMEOUT = 420
 WALL_BUDGET = {'quick': 1500, 'thorough': 14000}
-FOCUS = ['interp_torch', 'interp_fortran', 'inplace_false']
+FOCUS = ['interp_torch', 'interp_fortran', 'inplace_false', 'fortran_int_constant']
 FUNCS = ('sin', 'cos', 'tanh', 'sigmoid', 'exp', 'absv', 'sign')
 
 
@@ -63,8 +63,9 @@ def plan(tier, seed):
     k = 6 if tier == 'quick' else 40
     for feat in FOCUS:
         fam = 'probe:' + feat if feat in opened else 'main'
-        b = {'interp_torch': 'torch', 'interp_fortran': 'fortran', 'inplace_false': rnd.choice(['default', 'torch'])}[feat]
-        mode = 'vf' if feat == 'inplace_false' else 'interp_probe'
+        b = {'interp_torch': 'torch', 'interp_fortran': 'fortran', 'inplace_false': rnd.choice(['default', 'torch']),
+             'fortran_int_constant': 'fortran'}[feat]
+        mode = 'vf' if feat in ('inplace_false', 'fortran_int_constant') else 'interp_probe'
         cases += [{'family': fam, 'cseed': rnd.randrange(1 << 30), 'backend': b, 'mode': mode, 'prec': 'float64', 'want': feat}
                   for _ in range(k)]
     return cases
@@ -213,9 +214,18 @@ def run_case(case, ctx):
             if scale_literals(spec, rnd):
                 feats = feats + ['literal_magnitudes']
                 mech['literal_magnitude_models'] = 1
+        if want == 'fortran_int_constant':
+            # a constant declared with an integer default (k: 2), as YAML yields for `k: 2`
+            cands_i = [(o, v) for o, od in spec['ops'].items() for v, d in od['vars'].items() if d[0] == 'const']
+            if not cands_i:
+                continue
+            o_, v_ = rnd.choice(cands_i)
+            spec['ops'][o_]['vars'][v_][1] = rnd.choice([1, 2, 3])
         ref = RefModel(spec)
         if len(ref.state_keys) <= 14:
             break
+    if want == 'fortran_int_constant':
+        risk.append('fortran_int_constant')
     res = {'features': [b, mode, prec, 'vec' if vec else 'novec'] + feats, 'risk': risk, 'sig': stable_hash([spec, b, mode, prec, vec, inplace]),
            'nontrivial': 'edges' in feats}
     dt = 1e-3
